@@ -10,6 +10,7 @@ from sa.report import Report
 
 ids = sys.argv[1:] or sorted(props.PROPS)
 absint.COVERAGE = set()
+absint.BRANCHES = set()
 per = {}
 for pid in ids:
     before = set(absint.COVERAGE)
@@ -40,3 +41,31 @@ for m, n, l in missing:
 for m in sorted(by_mod):
     names = by_mod[m]
     print(f"{m} ({len(names)}): " + ", ".join(names[:40]) + (" ..." if len(names) > 40 else ""))
+
+
+# ---- branch sides never taken, in the modules the properties are anchored in
+FOCUS = ("tealer.detectors.", "tealer.analyses.", "tealer.teal.parse_teal", "tealer.teal.parse_functions", "tealer.teal.functions", "tealer.teal.basic_blocks",
+         "tealer.teal.subroutine", "tealer.utils.analyses", "tealer.utils.output", "tealer.utils.regex", "tealer.execution_context", "tealer.utils.command_line",
+         "tealer.__main__", "tealer.tealer", "tealer.printers", "tealer.teal.instructions.parse_", "tealer.utils.teal_enums")
+print()
+print("branch sides never evaluated (module:line outcome):")
+n_all = n_miss = 0
+for modname, tree in sorted(ctx.trees.items()):
+    if not modname.startswith(FOCUS):
+        continue
+    src = pathlib.Path("/repo", tree._path).read_text().splitlines()
+    out = []
+    for node in ast.walk(tree):
+        if isinstance(node, (ast.If, ast.IfExp)):
+            if isinstance(node, ast.If) and ast.unparse(node.test) in ("TYPE_CHECKING", "__name__ == '__main__'"):
+                continue
+            for side in (True, False):
+                n_all += 1
+                if (modname, node.lineno, side) not in absint.BRANCHES:
+                    n_miss += 1
+                    out.append(f"{node.lineno}:{'T' if side else 'F'} {src[node.lineno - 1].strip()[:70]}")
+    if out:
+        print(f"{modname} ({len(out)}):")
+        for o in sorted(out, key=lambda x: int(x.split(':')[0])):
+            print("    " + o)
+print(f"{n_all - n_miss}/{n_all} branch sides evaluated in the focus modules")
